@@ -160,6 +160,9 @@ async fn add_appointment(
                 LOCATOR_LEN,
             ));
         }
+        if a.encrypted_blob.is_empty() {
+            return Err(ApiError::empty_field("encrypted_blob"));
+        }
     } else {
         return Err(ApiError::missing_field("appointment"));
     }
